@@ -2,6 +2,6 @@
 EXTENDS MC_IndexCheckout, Json, IOUtils
 Out(_u) == [trees |-> Trees]
 ASSUME JsonSerialize(IOEnv.GEN_OUT, Out(0))
-GenInit == pc = "gen" /\ ws = [p \in Paths |-> Nope] /\ tgt = ws /\ avail = {} /\ del = FALSE /\ lists = <<>> /\ errs = {} /\ act = <<>>
+GenInit == pc = "gen" /\ ws = [p \in Paths |-> Nope] /\ tgt = ws /\ avail = {} /\ del = FALSE /\ link = "copy" /\ hashed = TRUE /\ crash = FALSE /\ dev = {} /\ lists = <<>> /\ errs = {} /\ act = <<>>
 GenNext == UNCHANGED vars
 =============================================================================
